@@ -29,8 +29,8 @@ def writer_text(ctx, F):
     p12.u2(ctx, F, D)
     p12.u3(ctx, F, D)
     p12.u4(ctx, F, D)
-    keep_i = [i for i in ctx.instances[before:] if str(i["instance"]).startswith(("writer:", "push:", "floor:"))]
-    keep_v = [v for v in ctx.violations[nv:] if str(v["instance"]).startswith(("writer:", "push:", "floor:"))]
+    keep_i = [i for i in ctx.instances[before:] if str(i["instance"]).startswith(("writer:", "push:"))]
+    keep_v = [v for v in ctx.violations[nv:] if str(v["instance"]).startswith(("writer:", "push:"))]
     del ctx.instances[before:]
     del ctx.violations[nv:]
     for i in keep_i:
